@@ -28,6 +28,15 @@ CLAIMS = {
               "attributed to a known finding only when the specification under that named deviation predicts the "
               "observed outcome. The ConstExpr clause is not exercised.",
               "DESIGN.md section 6 C02", "TLC-enumerated programs x inputs; differential real runs judged against Sem!Eval"),
+    "C03": _c("model_checking",
+              "Types.tla holds the reference typing rules (TypeOf, FullyTyped) and Sem.tla the reference semantics with "
+              "failure classes. Soundness: for every TLC-enumerated expression that is statically typed throughout x every "
+              "assignment, a program the real checker accepts may fail only where Sem!Eval fails, a successful result must "
+              "be assignable to the type the real checker reports, and be exactly bool/int64/float64 under the result "
+              "directives. Rejection: MC_Err.tla injects each of 28 single violations of a typing rule at every leaf of "
+              "every expression of three families; the real Compile must reject all. Known deviations are attributed by "
+              "specification-computed tags or by the named deviation of the semantics.",
+              "DESIGN.md section 6 C03", "TLA+ typing rules + reference semantics; TLC-enumerated typed programs run for real; TLA+ fault injection compiled for real"),
     "C05": _c("model_checking",
               "VM.tla + Compiler.tla model the machine and the code generator; TLC checks on every expression x assignment "
               "that the specified compiler's program is well-formed, never underflows and exits clean, also with a small "
